@@ -6,6 +6,7 @@ package main
 // it going through the jwt package's decoding logic.
 
 import (
+	"bytes"
 	"crypto/ed25519"
 	"encoding/base32"
 	"encoding/base64"
@@ -17,6 +18,7 @@ import (
 
 	jwt "github.com/nats-io/jwt/v2"
 	"github.com/nats-io/nkeys"
+	"verifharness/schema"
 )
 
 var b64 = base64.RawURLEncoding
@@ -552,9 +554,99 @@ func checkAccepted(c *Ctx, ft forged, f facts, o decObs) {
 	}
 }
 
+// oracleCases: the JSON-level steps that the end-to-end theorems DEFINE from the codec (Model/Pipeline.v: the identifier
+// read, the issuer read, the header read, the kind's loader) against the real json.Unmarshal into the real Go types
+var oracleW, oracleHW *CaseWriter
+var oracleN int
+
+func oracleCases(c *Ctx, tok string, f facts) {
+	if oracleW == nil {
+		return
+	}
+	oracleN++
+	if oracleN%5 != 0 {
+		return
+	}
+	chunks := strings.Split(tok, ".")
+	if len(chunks) != 3 {
+		return
+	}
+	if hj, err := b64.DecodeString(chunks[0]); err == nil && json.Valid(hj) && !dupKeys(hj) {
+		h := "None"
+		if f.HdrJSON {
+			h = "(Some (" + coqStr(f.Typ) + ", " + coqStr(f.Alg) + "))"
+		}
+		oracleHW.add("("+schema.JSONTerm(hj)+", "+h+")", map[string]interface{}{"header_json": string(hj)})
+	}
+	data, err := b64.DecodeString(chunks[1])
+	if err != nil || !json.Valid(data) || dupKeys(data) {
+		return
+	}
+	ident := "None"
+	unm := "None"
+	if f.IdentOK {
+		ident = fmt.Sprintf("(Some (%s, %s, %s))", coqStr(f.TopType), coqStr(f.NatsType), coqZ(f.NatsVer))
+		k, ok := kindCoq[f.DeclKind]
+		if !ok {
+			k = "KGeneric"
+		}
+		if f.DeclKind == "cluster" || f.DeclKind == "server" {
+			k = ""
+		}
+		typed4 := f.DeclKind == "operator" || f.DeclKind == "account" || f.DeclKind == "user" || f.DeclKind == "activation"
+		if k != "" && (!typed4 || f.DeclVersion == 1 || f.DeclVersion == 2) {
+			unm = fmt.Sprintf("(Some (%s, %s, %s))", k, coqZ(f.DeclVersion), coqBool(f.Unm))
+		}
+	}
+	oracleW.add("("+schema.JSONTerm(data)+", "+ident+", "+coqStr(f.Iss)+", "+unm+")", map[string]interface{}{"payload_json": string(data)})
+}
+
+// dupKeys: does some object in the text repeat a member name, exactly or up to ASCII case (outside the model)?
+func dupKeys(raw []byte) bool {
+	d := json.NewDecoder(bytes.NewReader(raw))
+	var walk func() bool
+	walk = func() bool {
+		tok, err := d.Token()
+		if err != nil {
+			return true
+		}
+		if dl, ok := tok.(json.Delim); ok {
+			switch dl {
+			case '{':
+				seen := map[string]bool{}
+				for d.More() {
+					k, err := d.Token()
+					if err != nil {
+						return true
+					}
+					ks := asciiLower(k.(string))
+					if seen[ks] {
+						return true
+					}
+					seen[ks] = true
+					if walk() {
+						return true
+					}
+				}
+				d.Token()
+			case '[':
+				for d.More() {
+					if walk() {
+						return true
+					}
+				}
+				d.Token()
+			}
+		}
+		return false
+	}
+	return walk()
+}
+
 // one forged token through facts, observation, spec check and model case
 func processToken(c *Ctx, w *CaseWriter, ft forged) (facts, decObs) {
 	f := computeFacts(ft.Token)
+	oracleCases(c, ft.Token, f)
 	o := observeDecode(ft.Token, f.Iss)
 	checkAccepted(c, ft, f, o)
 	w.add(dcaseCoq(ft.Token, f, o), map[string]interface{}{"token": ft.Token, "header_json": ft.Header, "payload_json": ft.Pay, "signed_layout": ft.Layout, "note": ft.Note})
